@@ -72,6 +72,9 @@ def mk_place(base, proj):
         if base[0] == "await" and isinstance(e, tuple) and e[0] == "f" and e[1] == 0 and len(base) == 2:
             base = ("await", base[1], "v")
             continue
+        if base[0] == "bin" and base[1].endswith("WithOverflow") and isinstance(e, tuple) and e[0] == "f" and e[1] == 0:
+            base = fold_bin(base[1][: -len("WithOverflow")], base[2], base[3])  # (a +ovf b).0 is a + b
+            continue
         if e == "*":
             if base[0] == "ref":
                 base = base[1]
@@ -156,6 +159,34 @@ class Walker:
         self.stop_at = stop_at
         self.revisit = revisit
         self.paths = []
+        self.loop_assigned = self._loops()
+
+    def _loops(self):
+        """header block -> locals assigned somewhere in the natural loop(s) of that header."""
+        b = self.b
+        dom = b.dominators()
+        out = {}
+        for u in dom:
+            for h in b.succs(u):
+                if h in dom[u]:  # back edge u -> h
+                    body = {h}
+                    stack = [u]
+                    while stack:
+                        x = stack.pop()
+                        if x in body:
+                            continue
+                        body.add(x)
+                        stack.extend(p for p in b.preds(x) if p in dom)
+                    assigned = out.setdefault(h, set())
+                    for x in body:
+                        blk = b.blocks[x]
+                        for st in blk["stmts"]:
+                            if "p" in st:
+                                assigned.add(st["p"][0])
+                        t = blk["term"]
+                        if t["k"] in ("call", "yield") and "dest" in t:
+                            assigned.add(t["dest"][0])
+        return out
 
     # -- evaluation --
     def place(self, st, jp):
@@ -167,7 +198,8 @@ class Walker:
             else:
                 base = ("loc", l)
         t = mk_place(base, proj)
-        if t in st.mem:
+        # a load through a projection reads memory now; a bare local is a value captured earlier
+        if proj and t in st.mem:
             return st.mem[t]
         return t
 
@@ -264,10 +296,21 @@ class Walker:
         b = self.b
         while True:
             if st.visited.count(bb) >= self.revisit:
-                st.events.append(("loop", bb))
+                carried = {}
+                for l in self.loop_assigned.get(bb, ()):
+                    if l in b.names and l in st.env:
+                        carried[b.names[l]] = st.env[l]
+                st.events.append(("loop", bb, carried))
                 self._emit(st)
                 return
             st.visited = st.visited + (bb,)
+            if bb in self.loop_assigned and st.visited.count(bb) == 1:
+                # loop header: locals carried round the loop are unknown here, not their initial value
+                for l in self.loop_assigned[bb]:
+                    if l in st.env:
+                        st.env[l] = ("phi", bb, l, b.local_name(l))
+                for m in [m for m in st.mem if root_local(m) in self.loop_assigned[bb]]:
+                    del st.mem[m]
             if self.stop_at and bb in self.stop_at:
                 st.events.append(("stop", bb))
                 self._emit(st)
@@ -381,6 +424,12 @@ class Walker:
             raise RuntimeError("unknown terminator " + k)
 
 
+def root_local(t):
+    while t[0] in ("pl", "ref"):
+        t = t[1]
+    return t[1] if t[0] in ("loc", "phi") else None
+
+
 def is_prefix(a, m):
     """place term a is a prefix of place term m"""
     if m[0] != "pl":
@@ -448,6 +497,8 @@ def show(t, depth=0):
         return t[2]
     if k == "loc":
         return "_%d" % t[1]
+    if k == "phi":
+        return "%s'" % t[3]
     if k == "pl":
         s = show(t[1], depth + 1)
         for e in t[2]:
